@@ -100,6 +100,11 @@ func init() {
 		out.Data["table_size"] = len(table)
 		one := big.NewInt(1)
 		seenA, seenN := map[string]bool{}, map[string]bool{}
+		type askedAddr struct {
+			ip  net.IP
+			got bool
+		}
+		var asked []askedAddr
 		addAddr := func(v6 bool, x *big.Int, why string) {
 			w := 32
 			if v6 {
@@ -110,6 +115,11 @@ func init() {
 			}
 			ip := ipBytes(v6, x)
 			got := util.IsIANAReserved(ip)
+			// an address and the network that holds just that address get the same answer
+			if w2 := map[bool]int{false: 32, true: 128}[v6]; util.IntersectsIANAReserved(net.IPNet{IP: ip, Mask: net.CIDRMask(w2, w2)}) != got {
+				out.Violate("C19|single-address:"+ip.String(), fmt.Sprintf("the address %s is reserved = %v but the network holding just that address intersects reserved space = %v", ip, got, !got), ip.String(), got, !got)
+			}
+			asked = append(asked, askedAddr{append(net.IP{}, ip...), got})
 			if !v6 {
 				// the IPv4-mapped 16-byte form must agree with the 4-byte form
 				if got16 := util.IsIANAReserved(ip.To16()); got16 != got {
@@ -240,6 +250,13 @@ func init() {
 			}
 		}
 		out.Stats["supernet_failures"] = supernetFail
+		// the classification of an address is a function of the address: asked again, in the reverse order, every address
+		// gets the answer it got the first time
+		for i := len(asked) - 1; i >= 0; i-- {
+			if again := util.IsIANAReserved(asked[i].ip); again != asked[i].got {
+				out.Violate("C19|address-answer-changes:"+asked[i].ip.String(), fmt.Sprintf("IsIANAReserved(%s) was %v the first time and %v when asked again after other addresses", asked[i].ip, asked[i].got, again), asked[i].ip.String(), asked[i].got, again)
+			}
+		}
 		// the lints on real certificates (SAN iPAddress, CN, permitted name constraints)
 		g := lint.GlobalRegistry()
 		fr, err := g.Filter(lint.FilterOptions{IncludeNames: []string{"e_ext_san_contains_reserved_ip", "e_subject_contains_reserved_ip", "e_ext_nc_intersects_reserved_ip"}})
